@@ -42,6 +42,9 @@ var c04Kinds = []string{
 	"restart-meta-removed",    // new DB object, meta directory removed offline
 	"runtime-reset",           // ResetLocalState on the live object (auto-recover path)
 	"restart-db-behind",       // new DB object, database replaced by older copy AND local meta kept (replica ahead)
+	"restart-ckpt-twice",      // new DB object; the application restarted the WAL twice, each generation shorter than the one before
+	"reopen-ckpt-twice",       // same, through Close/Open of the same DB object
+	"live-app-ckpt",           // litestream RUNNING: after its own checkpoint (read mark 0) and a sync to the WAL end, the application commits, checkpoints (mode) and commits again
 }
 
 var ckModes = []string{"PASSIVE", "FULL", "RESTART", "TRUNCATE"}
@@ -49,7 +52,7 @@ var ckModes = []string{"PASSIVE", "FULL", "RESTART", "TRUNCATE"}
 func pickScenario(rng *rand.Rand, i int) scenario {
 	s := scenario{kind: c04Kinds[i%len(c04Kinds)], nSynced: 2 + rng.Intn(3)}
 	switch s.kind {
-	case "restart-ckpt", "reopen-ckpt":
+	case "restart-ckpt", "reopen-ckpt", "live-app-ckpt":
 		s.mode = ckModes[(i/len(c04Kinds))%len(ckModes)]
 		// relative lengths of the old cursor and the new WAL generation: fewer / same / more
 		s.nBefore = 1 + rng.Intn(2)
@@ -61,6 +64,11 @@ func pickScenario(rng *rand.Rand, i int) scenario {
 		default:
 			s.nAfter = s.nSynced + 3 + rng.Intn(3)
 		}
+	case "restart-ckpt-twice", "reopen-ckpt-twice":
+		s.mode = ckModes[(i/len(c04Kinds))%len(ckModes)]
+		s.nSynced = 5 + rng.Intn(3)
+		s.nBefore = 0 // nothing is appended to the generation litestream was reading
+		s.nAfter = 1
 	case "restart-writes", "restart-wal-removed":
 		s.nBefore = 1 + rng.Intn(3)
 		s.nAfter = rng.Intn(3)
@@ -200,7 +208,60 @@ func runC04(rc *Recorder, dir string, rng *rand.Rand, idx int) error {
 		return nil
 	}
 
+	twice := func() error { // generation B (medium, never seen by litestream), then generation C (short, current)
+		ck := func() error {
+			var a, b, c int
+			return w.app.QueryRow("PRAGMA wal_checkpoint(" + sc.mode + ")").Scan(&a, &b, &c)
+		}
+		if err := ck(); err != nil {
+			return err
+		}
+		for i := 0; i < 3; i++ {
+			if err := w.singleWrite("u"); err != nil {
+				return err
+			}
+		}
+		if err := ck(); err != nil {
+			return err
+		}
+		return w.singleWrite("t")
+	}
 	switch sc.kind {
+	case "live-app-ckpt":
+		// litestream checkpoints itself (its read transaction restarts on a fully backfilled WAL), syncs to the end
+		if err := w.ldb.Checkpoint(ctx, "PASSIVE"); err != nil {
+			w.trace = append(w.trace, "ls-checkpoint-error")
+		}
+		if err := w.ldb.SyncAndWait(ctx); err != nil {
+			return err
+		}
+		if err := away(); err != nil { // application: commit(s), checkpoint(mode), commit(s) — litestream is running but idle
+			if !strings.Contains(err.Error(), "locked") && !strings.Contains(err.Error(), "busy") {
+				return err
+			}
+			w.trace = append(w.trace, "app-checkpoint-busy")
+		}
+	case "restart-ckpt-twice":
+		if err := w.ldb.Close(ctx); err != nil {
+			return fmt.Errorf("close before disturbance: %w", err)
+		}
+		if err := twice(); err != nil {
+			return err
+		}
+		w.ldb = w.newLitestream()
+		if err := w.ldb.Open(); err != nil {
+			return fmt.Errorf("reopen: %w", err)
+		}
+	case "reopen-ckpt-twice":
+		if err := w.ldb.Close(ctx); err != nil {
+			return fmt.Errorf("close before disturbance: %w", err)
+		}
+		if err := twice(); err != nil {
+			return err
+		}
+		if err := w.ldb.Open(); err != nil {
+			return fmt.Errorf("reopen same object: %w", err)
+		}
 	case "restart-idle", "restart-writes", "restart-ckpt", "restart-wal-removed", "restart-db-replaced", "restart-meta-removed", "restart-db-behind":
 		if err := w.ldb.Close(ctx); err != nil {
 			return fmt.Errorf("close before disturbance: %w", err)
@@ -274,7 +335,7 @@ func runC04(rc *Recorder, dir string, rng *rand.Rand, idx int) error {
 	}
 	newEnd := walEnd(w.dbPath + "-wal")
 	rel := "na"
-	if sc.mode != "" || sc.kind == "restart-writes" {
+	if (sc.mode != "" && sc.kind != "restart-ckpt-twice" && sc.kind != "reopen-ckpt-twice") || sc.kind == "restart-writes" {
 		switch {
 		case newEnd < cursor:
 			rel = "shorter"
@@ -291,6 +352,10 @@ func runC04(rc *Recorder, dir string, rng *rand.Rand, idx int) error {
 	// one more application write, then acknowledged syncs
 	if err := w.singleWrite("t"); err != nil {
 		return err
+	}
+	// the first verify+sync after the disturbance, observed for the model (Db/Verify.v, Db/Sync.v)
+	if w.ldb.PageSize() != 0 {
+		w.observeSync(rc, func() error { _, err := w.ldb.VerifSyncStep(ctx, w.cfg.MaxSyncWALBytes); return err })
 	}
 	acked := false
 	for k := 0; k < 2; k++ {
